@@ -181,3 +181,730 @@ def parse_file(path, fname):
                           line_of(text, fm.start(2)), fm.group(1).strip() == "pub"))
             i = be
     return raw, text, fns
+
+
+# ------------------------------------------------------------------ the typed scan
+# self type of an impl block -> scan type
+SELF_TY = {"ProgressBar": "ProgressBar", "BarState": "BarState", "MultiProgress": "MultiProgress",
+           "MultiState": "MultiState", "ProgressDrawTarget": "BarTarget", "Drawable": "Drawable",
+           "Ticker": "Ticker", "TickerControl": "TickerControl", "WeakProgressBar": "Untracked"}
+# impl blocks whose methods get a footprint; everything else in the four files must be lock free
+TRACKED_IMPLS = set(SELF_TY)
+
+FIELDS = {
+    ("ProgressBar", "state"): "BarMutex", ("ProgressBar", "ticker"): "SlotMutex",
+    ("BarState", "draw_target"): "BarTarget",
+    ("MultiProgress", "state"): "MultiLock",
+    ("MultiState", "draw_target"): "LeafTarget",   # never TargetKind::Multi: see check_new_remote()
+    ("Ticker", "stopping"): "StopPair", ("TickerControl", "stopping"): "StopPair",
+    ("StopPair", "0"): "StopMutex", ("StopPair", "1"): "StopCondvar",
+    ("TickerControl", "state"): "WeakBar", ("Ticker", "join_handle"): "JoinOpt",
+}
+GUARD_RES = {"BarState": "CBar", "SlotGuard": "CSlot", "MultiState": "CMulti", "StopGuard": "CStop",
+             "Drawable": "CMulti"}
+# primitive methods: (receiver type, name) -> (events emitted when the call returns, result type, acquires)
+PRIM = {
+    ("BarMutex", "lock"): ("BarState", "CBar"), ("ArcBar", "lock"): ("BarState", "CBar"),
+    ("SlotMutex", "lock"): ("SlotGuard", "CSlot"),
+    ("MultiLock", "write"): ("MultiState", "CMulti"), ("MultiLock", "read"): ("MultiState", "CMulti"),
+    ("StopMutex", "lock"): ("StopGuard", "CStop"),
+}
+# methods of std types that keep / change the tracked type; anything else on a tracked type is an error
+STD = {
+    "unwrap": None, "as_ref": None, "as_mut": None, "expect": None, "clone": "Untracked",
+    "is_none": "Untracked", "is_some": "Untracked", "map": "Untracked", "upgrade": None,
+    "take": None, "downgrade": "Untracked",
+}
+# tracked functions that RETURN a guard (validated against their source text in validate_guard_fns)
+RET_GUARD = {("ProgressBar", "state"): ("BarState", "CBar"), ("BarTarget", "drawable"): ("Drawable", "CMulti")}
+LEAF = {"LeafTarget", "LeafDrawable"}   # MultiState's own draw target: Term/TermLike, no library lock
+
+
+class Var:
+    def __init__(self, typ, res=None, owned=False):
+        self.typ, self.res, self.owned, self.live = typ, res, owned, True
+
+
+class Scanner:
+    def __init__(self, fn, fntab):
+        self.fn, self.fntab = fn, fntab
+        self.ev = []
+        self.toks = lex(fn.body, fn.body_off)
+        self.scopes = [{}]            # name -> Var, one dict per brace depth (+ virtual stmt scopes)
+        self.held = []                # Vars/temps currently holding a resource, in acquisition order
+        self.cb = set(re.findall(r"\b(\w+)\s*:\s*(?:impl\s+FnOnce|F\b)", fn.params))
+        for pm in re.finditer(r"(\w+)\s*:\s*&?\s*(?:mut\s+)?ProgressBar\b", fn.params):
+            self.scopes[0][pm.group(1)] = Var("ProgressBar")
+        self.selfty = SELF_TY[fn.typ]
+
+    # -- helpers
+    def where(self, off):
+        return "%s:%d (%s::%s)" % (self.fn.file, line_of(FILETEXT[self.fn.file], off), self.fn.typ, self.fn.name)
+
+    def lookup(self, name):
+        for sc in reversed(self.scopes):
+            if name in sc:
+                return sc[name]
+        return None
+
+    def acquire(self, res, off, note=""):
+        self.ev.append(("acq", res, self.where(off) + note))
+        g = Var("guard", res, True)
+        self.held.append(g)
+        return g
+
+    def release(self, g):
+        if g.live and g.res:
+            g.live = False
+            self.held.remove(g)
+            self.ev.append(("rel", g.res, ""))
+
+    def drop_var(self, v, off):
+        """a value goes out of scope / is dropped explicitly"""
+        if not v.live:
+            return
+        if v.res and v.owned:
+            self.release(v)
+        elif v.typ == "TickerOwned":
+            v.live = False
+            self.ev.append(("call", ("Ticker", "drop:drop"), self.where(off)))
+        elif v.typ == "ArcBar":
+            v.live = False
+            self.ev.append(("droparc", None, self.where(off)))
+            self.ev.append(("call", ("BarState", "drop:drop"), self.where(off)))
+
+    def pop_scope(self, off):
+        sc = self.scopes.pop()
+        for v in reversed(list(sc.values())):
+            self.drop_var(v, off)
+
+    # -- the scan
+    def run(self):
+        toks = self.toks
+        n = len(toks)
+        # statement frames: dicts with kind, temps, depth (brace depth at which the stmt lives)
+        stmts = []
+        braces = []     # for every open '{': ('block'|'group', stmt index owning it or None)
+        parens = []     # for every open '(': call info or None, saved chain
+        chain = None    # (type, guardVar-or-None, startVarName-or-None)
+        last_chain_end = -1
+        last_chain = None
+        i = 0
+
+        def new_stmt(i):
+            kind = "expr"
+            t = toks[i][0]
+            t1 = toks[i + 1][0] if i + 1 < n else ""
+            if t == "let":
+                kind = "let"
+            elif t in ("if", "while") and t1 == "let":
+                kind = "iflet"
+            elif t in ("if", "while"):
+                kind = "if"
+            elif t == "match":
+                kind = "match"
+            elif t in ("for", "loop"):
+                kind = "loop"
+            st = {"kind": kind, "temps": [], "depth": len(braces), "start": i, "name": None, "idx": len(stmts),
+                  "scrut": None, "init_kw": None, "cond_open": True, "pat": None}
+            if kind == "let":
+                j = i + 1
+                if toks[j][0] == "mut":
+                    j += 1
+                st["name"] = toks[j][0]
+                # initializer keyword
+                k = j
+                while toks[k][0] != "=" and toks[k][0] != ";":
+                    k += 1
+                if toks[k][0] == "=" and toks[k + 1][0] in ("match", "if"):
+                    st["init_kw"] = toks[k + 1][0]
+            if kind == "iflet":
+                # pattern text up to '='
+                k = i + 2
+                pat = []
+                while toks[k][0] != "=":
+                    pat.append(toks[k][0])
+                    k += 1
+                st["pat"] = pat
+            self.scopes.append({})      # virtual scope of the statement (pattern bindings)
+            stmts.append(st)
+            return st
+
+        def end_stmt(off):
+            st = stmts.pop()
+            for g in reversed(st["temps"]):
+                self.release(g)
+            self.pop_scope(off)
+
+        def release_cond_temps(st):
+            for g in reversed(st["temps"]):
+                self.release(g)
+            st["temps"] = []
+
+        need_stmt = True
+        while i < n:
+            t, off = toks[i]
+            nxt = toks[i + 1][0] if i + 1 < n else ""
+            if need_stmt and t not in ("}", ";"):
+                new_stmt(i)
+                need_stmt = False
+            st = stmts[-1] if stmts else None
+
+            # ---- structure
+            if t == "{":
+                if st and st["kind"] == "if" and st["cond_open"] and st["depth"] == len(braces):
+                    release_cond_temps(st)          # temporaries of an `if`/`while` condition
+                    st["cond_open"] = False
+                if st and st["kind"] == "iflet" and st["cond_open"] and st["depth"] == len(braces):
+                    st["cond_open"] = False
+                    self.bind_pattern(st, last_chain, off)
+                if st and (st["kind"] == "match" or st["init_kw"] == "match") and st["scrut"] is None \
+                        and st["depth"] == len(braces):
+                    st["scrut"] = last_chain or ("Untracked", None, None)
+                braces.append(len(stmts))
+                self.scopes.append({})
+                chain = None
+                need_stmt = True
+                i += 1
+                continue
+            if t == "}":
+                # statements still open inside this group end here (tail expression)
+                depth_stmts = braces.pop()
+                while len(stmts) > depth_stmts:
+                    end_stmt(off)
+                self.pop_scope(off)
+                chain = None
+                need_stmt = False
+                st = stmts[-1] if stmts else None
+                if st and st["depth"] == len(braces) and not parens_open_in_stmt(parens, st) \
+                        and st["kind"] in ("if", "iflet", "match", "loop", "expr") \
+                        and nxt not in ("else", ".", "?", ";", ")", ",", "=>", "=", "|"):
+                    end_stmt(off)
+                    need_stmt = True
+                if not stmts and not braces:
+                    need_stmt = True
+                i += 1
+                continue
+            if t == "else":
+                if st and st["kind"] == "if" and nxt == "if":
+                    st["cond_open"] = True
+                    i += 2
+                else:
+                    i += 1
+                chain = None
+                continue
+            if t == "=" and st and toks[st["start"]][0] == "*" and nxt == "true" \
+                    and any(g.live and g.res == "CStop" for g in st["temps"]):
+                self.ev.append(("setstop", None, self.where(off)))
+            if t == ";" or (t == "," and st and st["depth"] == len(braces) and not parens
+                            and braces and st["kind"] == "expr"):
+                if st and st["depth"] == len(braces) and not parens_open_in_stmt(parens, st):
+                    if t == ";" and st["kind"] == "let":
+                        self.bind_let(st, last_chain if last_chain_end == i - 1 else None, off)
+                    end_stmt(off)
+                    need_stmt = True
+                chain = None
+                i += 1
+                continue
+            if t == "(":
+                parens.append({"call": None, "stmt": len(stmts)})
+                chain = None
+                i += 1
+                continue
+            if t == ")":
+                p = parens.pop()
+                chain = None
+                if p["call"]:
+                    chain = self.finish_call(p["call"], off, stmts)
+                    last_chain, last_chain_end = chain, i
+                i += 1
+                continue
+
+            # ---- chains
+            prev = toks[i - 1][0] if i > 0 else ""
+            if t == "." and re.match(r"[A-Za-z_0-9]", nxt or " "):
+                name = nxt
+                after = toks[i + 2][0] if i + 2 < n else ""
+                if after == "(":
+                    parens.append({"call": (chain, name, toks[i + 1][1]), "stmt": len(stmts)})
+                    chain = None
+                    i += 3
+                    continue
+                if chain:
+                    ty = field_type(chain[0], name)
+                    chain = (ty, None, None)
+                    last_chain, last_chain_end = chain, i + 1
+                i += 2
+                continue
+            if t == "?":
+                last_chain_end = i
+                i += 1
+                continue
+            if re.match(r"[A-Za-z_]", t) and prev not in (".",):
+                # path?
+                if nxt == "::":
+                    path = [t]
+                    j = i
+                    while j + 2 < n and toks[j + 1][0] == "::":
+                        path.append(toks[j + 2][0])
+                        j += 2
+                    after = toks[j + 1][0] if j + 1 < n else ""
+                    p = "::".join(path)
+                    if after == "(" and p in ("thread::spawn", "Ticker::new") or \
+                       (after == "(" and path[0] == "Self" and (self.fn.typ, path[-1]) in self.fntab):
+                        parens.append({"call": (("path", None, None), p, off), "stmt": len(stmts)})
+                        chain = None
+                        i = j + 2
+                        continue
+                    if p in ("TargetKind::Multi", "Self::Multi", "Drawable::Multi") and after == "{":
+                        self.bind_struct_pattern(p, j + 1)
+                    chain = None
+                    i = j + 1
+                    continue
+                if t == "drop" and nxt == "(" and toks[i + 3][0] == ")":
+                    v = self.lookup(toks[i + 2][0])
+                    if v is not None:
+                        self.drop_var(v, off)
+                    chain = None
+                    i += 4
+                    continue
+                if t in self.cb and nxt == "(":
+                    parens.append({"call": (("callback", None, None), t, off), "stmt": len(stmts)})
+                    chain = None
+                    i += 2
+                    continue
+                if t == "self":
+                    chain = (self.selfty, None, None)
+                elif t == "tracker":
+                    chain = ("Tracker", None, None)
+                elif self.lookup(t) is not None and self.lookup(t).live:
+                    v = self.lookup(t)
+                    chain = (v.typ, v if v.res else None, t)
+                else:
+                    chain = None
+                last_chain, last_chain_end = chain, i
+                i += 1
+                continue
+            chain = None
+            i += 1
+        while stmts:
+            end_stmt(self.fn.body_off + len(self.fn.body))
+        while self.scopes:
+            self.pop_scope(self.fn.body_off + len(self.fn.body))
+        if self.held:
+            die("%s::%s: guards still held at the end of the body" % (self.fn.typ, self.fn.name))
+        return self.ev
+
+    # -- bindings
+    def bind_let(self, st, chain, off):
+        name = st["name"]
+        if st["init_kw"] in ("match", "if"):
+            chain = st["scrut"]
+            if chain and chain[1] is None and chain[0] != "LeafDrawable":
+                return          # `let x = match e {..}`: x has the arms' type, only a guard is tracked
+        if name == "_" or not chain or name is None:
+            return
+        ty, g, _ = chain
+        block = self.scopes[-2]     # scopes[-1] is the statement's virtual scope
+        if g is not None and g in st["temps"]:
+            st["temps"].remove(g)
+            g.typ = ty
+            block[name] = g
+        elif ty not in ("Untracked",) and g is None:
+            block[name] = Var(ty)
+
+    def bind_pattern(self, st, chain, off):
+        names = [x for x in st["pat"] if re.match(r"[a-z_][a-z0-9_]*$", x) and x not in ("mut", "ref", "_")]
+        if not names or not chain:
+            return
+        name, (ty, g, _) = names[0], chain
+        sc = self.scopes[-1]
+        if ty == "OptTickerOwned":
+            sc[name] = Var("TickerOwned")
+        elif ty == "OptTickerRef":
+            sc[name] = Var("Ticker")
+        elif ty == "OptArcBar":
+            sc[name] = Var("ArcBar")
+        elif ty == "OptRemote":
+            sc[name] = Var("MultiLock")
+        elif ty == "Drawable" and g is not None and g in st["temps"]:
+            st["temps"].remove(g)
+            g.typ = "Drawable"
+            sc[name] = g
+        elif ty == "LeafDrawable":
+            sc[name] = Var("LeafDrawable")
+
+    def bind_struct_pattern(self, path, open_idx):
+        """`TargetKind::Multi { .. state .. } =>` binds state: the lock; `Drawable::Multi {..} =>`: the held guard"""
+        toks = self.toks
+        d, j = 0, open_idx
+        names = []
+        while True:
+            if toks[j][0] == "{":
+                d += 1
+            elif toks[j][0] == "}":
+                d -= 1
+                if d == 0:
+                    break
+            elif d == 1:
+                names.append(toks[j][0])
+            j += 1
+        after = toks[j + 1][0] if j + 1 < len(toks) else ""
+        if after not in ("=>", "="):
+            return      # a struct literal (expression), not a pattern
+        if "state" in names:
+            is_lock = path == "TargetKind::Multi" or (path == "Self::Multi" and self.fn.typ != "Drawable")
+            self.scopes[-1]["state"] = Var("MultiLock" if is_lock else "MultiState")
+
+    # -- calls
+    def finish_call(self, call, off, stmts):
+        recv, name, noff = call
+        st = stmts[-1]
+        ty = recv[0] if recv else None
+        g = recv[1] if recv else None
+        w = self.where(noff)
+
+        def temp(res, gty):
+            gv = self.acquire(res, noff, " %s.%s()" % (ty, name))
+            gv.typ = gty
+            st["temps"].append(gv)
+            return (gty, gv, None)
+
+        if ty == "path":
+            if name == "thread::spawn":
+                self.ev.append(("spawn", None, w))
+                return ("Untracked", None, None)
+            if name == "Ticker::new":
+                self.ev.append(("call", ("Ticker", "new"), w))
+                return ("Untracked", None, None)
+            self.ev.append(("call", (self.fn.typ, name.split("::")[-1]), w))
+            return (self.selfty, None, None)
+        if ty == "callback":
+            self.ev.append(("callback", None, w))
+            return ("Untracked", None, None)
+        if ty in (None, "Untracked"):
+            if name == "join":
+                self.ev.append(("join", None, w))
+            elif name == "format_state":
+                self.ev.append(("callback", None, w + " ProgressTracker::write via format_state"))
+            elif name in ("lock", "write", "read", "try_lock", "try_write", "try_read", "wait", "wait_timeout",
+                          "wait_while", "wait_timeout_while", "notify_one", "notify_all", "spawn"):
+                die("%s: `.%s()` on a receiver the translator cannot type" % (w, name))
+            else:
+                IGNORED.append((self.fn.typ, self.fn.name, name, w))
+            return ("Untracked", None, None)
+        if ty == "Tracker":
+            self.ev.append(("callback", None, w + " ProgressTracker::" + name))
+            return ("Untracked", None, None)
+        if ty == "Safe":
+            return ("Safe", None, None)
+        if (ty, name) in PRIM:
+            gty, res = PRIM[(ty, name)]
+            return temp(res, gty)
+        if ty == "StopCondvar":
+            if name == "notify_one":
+                self.ev.append(("notify", None, w))
+                return ("Untracked", None, None)
+            if name == "wait_timeout_while":
+                gs = [x for x in st["temps"] if x.live and x.res == "CStop"]
+                if len(gs) != 1 or self.held[-1] is not gs[0]:
+                    die("%s: wait_timeout_while without exactly the Stop guard as innermost guard" % w)
+                self.ev.append(("waitrel", "CStop", w))
+                self.ev.append(("acq", "CStop", w + " (re-acquired by the wait)"))
+                return ("StopGuard", gs[0], None)
+            die("%s: condvar method %s not modelled" % (w, name))
+        if ty in LEAF:
+            return ("LeafDrawable" if name == "drawable" else "Untracked", None, None)
+        if (ty, name) in RET_GUARD:
+            gty, res = RET_GUARD[(ty, name)]
+            return temp(res, gty)
+        impl_ty = {"BarTarget": "ProgressDrawTarget", "TickerOwned": "Ticker"}.get(ty, ty)
+        if (impl_ty, name) in self.fntab:
+            callee = self.fntab[(impl_ty, name)]
+            self.ev.append(("call", (impl_ty, name), w))
+            if callee.by_value_self and g is not None and g.owned:
+                self.release(g)          # consumed: Drawable::draw(self) / clear(self)
+            if (impl_ty, name) == ("ProgressDrawTarget", "remote"):
+                return ("OptRemote", None, None)
+            if callee.by_value_self and impl_ty == "ProgressBar":
+                return ("ProgressBar", None, None)
+            return ("Untracked", None, None)
+        if name in STD:
+            if (ty, name) == ("SlotGuard", "take"):
+                return ("OptTickerOwned", None, None)
+            if (ty, name) == ("SlotGuard", "as_ref"):
+                return ("OptTickerRef", None, None)
+            if (ty, name) == ("WeakBar", "upgrade"):
+                self.ev.append(("upgrade", None, w))
+                return ("OptArcBar", None, None)
+            if STD[name] is None:
+                return (ty, g, None)
+            return (STD[name], None, None)
+        die("%s: method `%s` on tracked type %s is not known to the translator" % (w, name, ty))
+
+
+def parens_open_in_stmt(parens, st):
+    return any(p["stmt"] > st["idx"] for p in parens)
+
+
+IGNORED = []
+FILETEXT = {}
+STRUCT_FIELDS = {}      # (struct name, field) -> type text
+TRACKED_WORDS = re.compile(r"\b(ProgressBar|WeakProgressBar|BarState|MultiProgress|MultiState|ProgressDrawTarget|"
+                           r"TargetKind|Drawable|Ticker|TickerControl|Mutex|RwLock|Condvar|JoinHandle|MutexGuard|"
+                           r"RwLockWriteGuard|RwLockReadGuard|TermLike|Term|ProgressTracker|ProgressStyle)\b")
+
+
+def parse_structs(text):
+    for m in re.finditer(r"struct\s+(\w+)(?:<[^>{]*>)?\s*\{", text):
+        end = match_brace(text, m.end() - 1)
+        body = text[m.end():end - 1]
+        for fm in re.finditer(r"(?:pub(?:\([a-z]+\))?\s+)?(\w+)\s*:\s*([^,]+),", body):
+            STRUCT_FIELDS[(m.group(1), fm.group(1))] = fm.group(2).strip()
+
+
+def field_type(ty, name):
+    if (ty, name) in FIELDS:
+        return FIELDS[(ty, name)]
+    if ty == "Safe":
+        return "Safe"
+    impl_ty = {"BarTarget": "ProgressDrawTarget", "LeafTarget": "ProgressDrawTarget", "TickerOwned": "Ticker"}.get(ty, ty)
+    ft = STRUCT_FIELDS.get((impl_ty, name))
+    if ft is not None and not TRACKED_WORDS.search(ft):
+        return "Safe"       # a field whose type mentions no lock, no tracked type and no user callback
+    return "Untracked"
+
+
+# ------------------------------------------------------------------ whole-program part
+FILES = ["progress_bar.rs", "multi.rs", "state.rs", "draw_target.rs"]
+LOCK_CALL = re.compile(r"\.\s*(lock|write|read|try_lock|try_write|try_read|wait_timeout_while|wait_timeout|wait|"
+                       r"wait_while|notify_one|notify_all|join)\s*\(\s*\)|\.\s*(wait_timeout_while|wait_timeout|wait_while)\s*\(|"
+                       r"thread::spawn\s*\(")
+
+
+def validate_guard_fns(fntab):
+    f = fntab[("ProgressBar", "state")]
+    if re.sub(r"\s+", "", f.body) != "self.state.lock().unwrap()":
+        die("ProgressBar::state() is no longer `self.state.lock().unwrap()`")
+    f = fntab[("ProgressDrawTarget", "drawable")]
+    locks = LOCK_CALL.findall(f.body)
+    m = re.search(r"TargetKind::Multi\s*\{[^}]*\}\s*=>\s*\{\s*let\s+state\s*=\s*state\.write\(\)\.unwrap\(\);\s*"
+                  r"Some\(Drawable::Multi\s*\{", f.body)
+    if len(locks) != 1 or not m:
+        die("ProgressDrawTarget::drawable(): expected exactly one lock call, `state.write()` moved into Drawable::Multi")
+
+
+def check_new_remote(texts):
+    """MultiState.draw_target is never TargetKind::Multi: new_remote() has one caller, internalize()"""
+    uses = []
+    for f, t in texts.items():
+        for m in re.finditer(r"new_remote\s*\(", t):
+            uses.append((f, line_of(t, m.start()), t[max(0, m.start() - 60):m.start()]))
+    callers = [u for u in uses if "fn " not in u[2].split("\n")[-1]]
+    if len(callers) != 1 or callers[0][0] != "multi.rs" or "pb.set_draw_target(ProgressDrawTarget::" not in callers[0][2]:
+        die("ProgressDrawTarget::new_remote has callers other than MultiProgress::internalize: %r" % (callers,))
+    for f, t in texts.items():
+        for m in re.finditer(r"TargetKind::Multi\s*\{", t):
+            if f != "draw_target.rs":
+                die("TargetKind::Multi constructed/matched outside draw_target.rs (%s:%d)" % (f, line_of(t, m.start())))
+
+
+def flatten(key, fntab, stack, memo):
+    if key in memo:
+        return memo[key]
+    if key in stack:
+        die("call cycle: " + " -> ".join("%s::%s" % k for k in stack + [key]))
+    fn = fntab.get(key)
+    if fn is None:
+        die("call to unknown function %s::%s" % key)
+    out = []
+    for ev in fn.events:
+        if ev[0] == "call":
+            if ev[1] in RET_GUARD_IMPL:
+                die("guard constructor %s::%s reached as a plain call" % ev[1])
+            out.extend(flatten(ev[1], fntab, stack + [key], memo))
+        else:
+            out.append(ev)
+    memo[key] = out
+    return out
+
+
+RET_GUARD_IMPL = {("ProgressBar", "state"), ("ProgressDrawTarget", "drawable")}
+COQ = {"acq": "CAcq %s", "rel": "CRel %s", "waitrel": "CWaitRel %s", "setstop": "CSetStop", "notify": "CNotify",
+       "spawn": "CSpawn", "join": "CJoin", "callback": "CCallback", "tick": "CTick", "upgrade": "CUpgrade",
+       "droparc": "CDropArc"}
+
+
+def coq_list(evs):
+    items = [(COQ[e[0]] % e[1]) if "%s" in COQ[e[0]] else COQ[e[0]] for e in evs]
+    return "[" + "; ".join(items) + "]"
+
+
+def check_balanced(name, evs):
+    held = []
+    for e in evs:
+        if e[0] == "acq":
+            held.append(e[1])
+        elif e[0] == "rel":
+            if e[1] not in held:
+                die("%s: releases %s which it does not hold" % (name, e[1]))
+            held.remove(e[1])
+        elif e[0] == "waitrel":
+            if held != [e[1]]:
+                die("%s: condvar wait while holding %s" % (name, held))
+            held.remove(e[1])
+    if held:
+        die("%s: unbalanced footprint, still holds %s" % (name, held))
+
+
+def main(argv):
+    repo = REPO
+    out = OUT
+    if "--repo" in argv:
+        repo = argv[argv.index("--repo") + 1]
+    if "--out" in argv:
+        out = argv[argv.index("--out") + 1]
+    fntab, texts, raws = {}, {}, {}
+    for f in FILES:
+        raw, text, fns = parse_file(os.path.join(repo, "src", f), f)
+        texts[f], raws[f] = text, raw
+        parse_structs(text)
+        FILETEXT[f] = text
+        for fn in fns:
+            if fn.typ in TRACKED_IMPLS:
+                if (fn.typ, fn.name) in fntab:
+                    die("duplicate function %s::%s" % (fn.typ, fn.name))
+                fntab[(fn.typ, fn.name)] = fn
+    for need in [("ProgressBar", "state"), ("ProgressDrawTarget", "drawable"), ("Ticker", "drop:drop"),
+                 ("BarState", "drop:drop"), ("TickerControl", "run"), ("Ticker", "stop"), ("Ticker", "new"),
+                 ("BarState", "tick")]:
+        if need not in fntab:
+            die("expected function %s::%s not found" % need)
+    validate_guard_fns(fntab)
+    check_new_remote(texts)
+    # scan
+    covered = set()
+    for key, fn in sorted(fntab.items()):
+        if key in RET_GUARD_IMPL:
+            fn.events = []
+            for m in LOCK_CALL.finditer(fn.body):
+                covered.add((fn.file, line_of(texts[fn.file], fn.body_off + m.start())))
+            continue
+        sc = Scanner(fn, fntab)
+        fn.events = sc.run()
+        if key == ("BarState", "tick"):
+            if not re.search(r"self\.state\.tick\s*=\s*self\.state\.tick\.saturating_add\(1\)", fn.body):
+                die("BarState::tick no longer increments state.tick by saturating_add(1)")
+            fn.events.insert(0, ("tick", None, "state.rs:%d" % fn.line))
+        for ev in fn.events:
+            if ev[0] in ("acq", "waitrel", "notify", "join", "spawn"):
+                mm = re.match(r"(\w+\.rs):(\d+)", ev[2])
+                covered.add((mm.group(1), int(mm.group(2))))
+    # every lock / condvar / spawn / join call site of the four files must be covered by a footprint
+    sites = []
+    for f in FILES:
+        for m in LOCK_CALL.finditer(texts[f]):
+            sites.append((f, line_of(texts[f], m.start()), m.group(0)))
+    missing = [s for s in sites if (s[0], s[1]) not in covered and (s[0], s[1] - 1) not in covered
+               and (s[0], s[1] + 1) not in covered]
+    if missing:
+        die("lock/condvar/spawn/join call sites not covered by any footprint: %r" % missing)
+    # calls through receivers the translator could not type, whose name is a tracked function with effects
+    memo = {}
+    flat = {k: flatten(k, fntab, [], memo) for k in fntab if k not in RET_GUARD_IMPL}
+    eff_names = {}
+    for (t, n), evs in flat.items():
+        if any(e[0] in ("acq", "join", "spawn", "waitrel") for e in evs):
+            eff_names.setdefault(n, []).append(t)
+    for k in MUST_BE_LOCK_FREE:
+        if k not in flat or any(e[0] in ("acq", "join", "spawn", "waitrel") for e in flat[k]):
+            die("%s::%s is expected to run under the caller's Multi guard without taking a lock itself" % k)
+    suspicious = [x for x in IGNORED if x[2] in eff_names and (x[0], x[1], x[2]) not in IGNORE_OK]
+    if suspicious:
+        die("calls on untyped receivers that share a name with a locking function: %r" % suspicious)
+    # synthesized: dropping a ProgressBar handle (field order of the struct), cloning one
+    m = re.search(r"pub struct ProgressBar\s*\{([^}]*)\}", texts["progress_bar.rs"])
+    fields = re.findall(r"(\w+)\s*:\s*([^,]+),", m.group(1))
+    drop_ev = []
+    for fname, fty in fields:
+        fty = re.sub(r"\s+", "", fty)
+        if fty == "Arc<Mutex<BarState>>":
+            drop_ev.append(("droparc", None, "progress_bar.rs: field " + fname))
+            drop_ev.extend(flat[("BarState", "drop:drop")])
+        elif fty == "Arc<Mutex<Option<Ticker>>>":
+            drop_ev.extend(flat[("Ticker", "drop:drop")])
+        elif fty == "Arc<AtomicPosition>":
+            pass
+        else:
+            die("ProgressBar has a field of a type the translator does not know: %s: %s" % (fname, fty))
+    # output
+    table = []
+    for (t, n), fn in sorted(fntab.items()):
+        if (t, n) in RET_GUARD_IMPL:
+            continue
+        if t in ("ProgressBar", "MultiProgress") and fn.public:
+            table.append(("%s::%s" % (t, n), flat[(t, n)], "%s:%d" % (fn.file, fn.line)))
+    table.append(("ProgressBar::drop", drop_ev, "progress_bar.rs: struct ProgressBar (drop glue, last handle)"))
+    table.append(("ProgressBar::clone", [], "progress_bar.rs: #[derive(Clone)]"))
+    table.append(("MultiProgress::clone", [], "multi.rs: #[derive(Clone)]"))
+    table.append(("MultiProgress::drop", [], "multi.rs: no Drop impl on MultiProgress/MultiState"))
+    for extra in [("BarState", "drop:drop"), ("Ticker", "drop:drop"), ("Ticker", "stop"), ("Ticker", "new"),
+                  ("TickerControl", "run")]:
+        table.append(("%s::%s" % extra, flat[extra], "%s:%d" % (fntab[extra].file, fntab[extra].line)))
+    for name, evs, _ in table:
+        check_balanced(name, evs)
+    lines = ["(* GENERATED by tools/locks_extract.py from %s/src - do not edit. *)" % "/repo",
+             "From IndModel Require Import Base Locks.",
+             "From Coq Require Import String.",
+             "Local Open Scope string_scope.",
+             "",
+             "(** one entry per public method of ProgressBar / MultiProgress (+ drop/clone and the internal",
+             "    pieces): the textual-order linearisation of its lock footprint, callees inlined. *)",
+             "Definition all_footprints : list (string * list caction) := ["]
+    for k, (name, evs, src) in enumerate(table):
+        lines.append("  (* %s *)" % src)
+        lines.append('  ("%s", %s)%s' % (name, coq_list(evs), ";" if k + 1 < len(table) else ""))
+    lines.append("].")
+    lines.append("")
+    lines.append("(** the loop body of TickerControl::run: the program of a ticker thread is a repetition of it *)")
+    lines.append("Definition ticker_body : list caction := %s." % coq_list(flat[("TickerControl", "run")]))
+    lines.append("")
+    lines.append("(* lock / condvar / spawn / join call sites covered (file:line):")
+    for f, l, txt in sites:
+        lines.append("   %s:%d  %s" % (f, l, txt.strip().replace("\n", " ")))
+    lines.append("*)")
+    new = "\n".join(lines) + "\n"
+    old = open(out).read() if os.path.exists(out) else None
+    if old != new:
+        open(out, "w").write(new)
+    if "--json" in argv:
+        json.dump({"table": [(n, [(e[0], e[1], e[2]) for e in evs], src) for n, evs, src in table],
+                   "sites": sites, "ignored": IGNORED}, sys.stdout, indent=1)
+    return 0
+
+
+# calls on receivers the translator cannot type whose NAME coincides with a locking function; each entry
+# was checked by hand (file, fn, method): the receiver is not a ProgressBar/MultiProgress/BarState/...
+IGNORE_OK = {
+    ("BarState", "set_style", "set_tab_width"),      # ProgressStyle::set_tab_width (style.rs: no lock outside tests)
+    ("BarState", "set_tab_width", "set_tab_width"),  # ProgressStyle / TabExpandedString
+    ("Drawable", "state", "reset"),                  # DrawStateWrapper::reset
+    ("Drawable", "width", "width"),                  # dyn TermLike::width: user code, must not re-enter (proviso)
+    ("ProgressDrawTarget", "width", "width"),        # dyn TermLike::width: user code
+    ("MultiState", "clear", "clear"),                # Drawable::clear on MultiState's own (Term/TermLike) drawable
+    ("ProgressBar", "debug:fmt", "finish"),          # fmt::DebugStruct::finish
+    ("ProgressDrawTarget", "disconnect", "clear"),   # Drawable::Multi{..}.clear(): runs under the guard acquired on the
+                                                     # line before; Drawable::clear/draw themselves take no lock (checked below)
+    ("Ticker", "new", "run"),                        # TickerControl::run: body of the spawned thread (ticker_body)
+}
+MUST_BE_LOCK_FREE = [("Drawable", "clear"), ("Drawable", "draw"), ("Drawable", "state"), ("MultiState", "draw"),
+                     ("MultiState", "clear"), ("MultiState", "suspend"), ("MultiState", "println"),
+                     ("MultiState", "mark_zombie"), ("MultiState", "remove_idx"), ("MultiState", "insert"),
+                     ("MultiState", "width"), ("MultiState", "is_hidden"), ("MultiState", "draw_state")]
+
+if __name__ == "__main__":
+    try:
+        sys.exit(main(sys.argv[1:]))
+    except XErr as e:
+        sys.stderr.write("locks_extract.py: ERROR: %s\n" % e)
+        sys.exit(2)
